@@ -86,10 +86,13 @@ def truncation_verdict(text, allopts, out):
     implementation's two-quote special case computes ('quirk'), or neither (None when other options are in play)"""
     if not allopts.get('truncate_strings') or set(allopts) - {'truncate_strings', 'truncate_char'}:
         return None
+    import re
+    # the serializer rewrites line ends and drops blanks in front of them (outside what it takes for quoted text): compare modulo exactly that
+    norm = lambda t: re.sub(r'[ \t]*(\r\n|\r|\n)', '\n', t).rstrip(' \t')
     try:
-        if out == truncate_reference(text, allopts):
+        if norm(out) == norm(truncate_reference(text, allopts)):
             return 'spec'
-        if out == truncate_reference(text, allopts, quirk=True):
+        if norm(out) == norm(truncate_reference(text, allopts, quirk=True)):
             return 'quirk'
     except Exception:
         return None
